@@ -269,6 +269,44 @@ def decide(prop_id: str, tier: str, seed: int) -> int:
     # 4. correspondence
     ctx = Ctx(prop_id, tier, seed, drv)
     harness_crash = None
+
+    # A correspondence run that does not come back (the implementation, changed, loops on some generated case and the check's own caps
+    # do not reach it) must not hang the check: after the wall-clock limit whatever failing inputs were found so far are reported; if
+    # there is none, the run is reported as no longer checking (no-failing-input-found).  Never fires on the unchanged tree (quick
+    # tier < 2 min, thorough < 15 min).
+    import threading
+    run_limit = float(os.environ.get("VERIF_RUN_LIMIT", "1200" if tier == "quick" else "5400"))
+
+    def _expired(phase, c):
+        known_, _f = load_known()
+        viol = [d for d in c.disagreements if d.spec_violated and (prop_id, d.key) not in known_]
+        out_lines = []
+        if viol:
+            for d in viol[:20]:
+                rp_ = write_replay(prop_id, {"property": prop_id, "kind": "failing-input", **d.to_json(), "seed": seed, "tier": tier,
+                                             "note": f"reported when the {phase} did not finish within {run_limit:.0f} s"})
+                out_lines.append(f"VIOLATION property={prop_id} replay={rp_}")
+        else:
+            rp_ = write_replay(prop_id, {"property": prop_id, "kind": "no-failing-input-found", "seed": seed, "tier": tier,
+                                         "no_longer_checks": broken + [{"what": f"{phase} did not terminate within {run_limit:.0f} s of wall-clock time",
+                                                                        "detail": "the implementation (or the comparison) no longer terminates on some generated case; "
+                                                                                  f"{c.evaluations} cases had been evaluated"}],
+                                         "correspondence_disagreements": [d.to_json() for d in c.disagreements[:20]]})
+            out_lines.append(f"VIOLATION property={prop_id} replay={rp_} no-failing-input-found")
+        for ln in out_lines:
+            print(ln, flush=True)
+        print(f"[{prop_id}] tier={tier} seed={seed} {phase} cut after {run_limit:.0f} s -> exit 1", flush=True)
+        try:
+            import multiprocessing
+            for ch in multiprocessing.active_children():
+                ch.kill()
+        except Exception:
+            pass
+        os._exit(1)
+
+    wd = threading.Timer(run_limit, _expired, args=("correspondence run", ctx))
+    wd.daemon = True
+    wd.start()
     try:
         mod.run(ctx)
     except DriverError as e:
@@ -277,6 +315,8 @@ def decide(prop_id: str, tier: str, seed: int) -> int:
         harness_crash = traceback.format_exc()
         broken.append({"what": "correspondence harness raised (implementation no longer drivable as modelled)",
                        "detail": harness_crash[-6000:]})
+    finally:
+        wd.cancel()
 
     # 5. failing-input search when something no longer checks and no failing input is on the table yet
     def violating(c):
@@ -292,10 +332,15 @@ def decide(prop_id: str, tier: str, seed: int) -> int:
         searched = True
         sctx = Ctx(prop_id, tier, seed + 7919, drv)
         sctx.widened = True
+        wd2 = threading.Timer(run_limit, _expired, args=("failing-input search", ctx))  # reports what the first run found
+        wd2.daemon = True
+        wd2.start()
         try:
             (getattr(mod, "search", None) or mod.run)(sctx)
         except Exception:
             log("search raised:\n" + traceback.format_exc()[-3000:])
+        finally:
+            wd2.cancel()
         for d in sctx.disagreements:
             if d.spec_violated and d.key not in ctx._seen_keys:
                 ctx.disagreements.append(d)
